@@ -1,7 +1,7 @@
 (* C15  Emulated failures fail every data call, change nothing, and are reversible. *)
 From Coq Require Import List Bool.
 From Minidyn Require Import Base.Str Base.FMap Base.Outcome Model.Value Model.Key Model.Index Model.Table Model.Client.
-From Minidyn Require Import Proofs.ClientFacts.
+From Minidyn Require Import Proofs.ClientFacts Proofs.Lifecycle.
 Import ListNotations.
 
 Theorem C15_failure_blocks_and_changes_nothing :
@@ -26,3 +26,12 @@ Theorem C15_failure_erasable :
                      match o with OBatchGet _ => sdk = V2 | _ => True end) ops ->
     set_failure (fold_left (fun c o => fst (step lm lu sdk c o)) ops (set_failure c (Some f))) None = c.
 Proof. exact failure_erasable. Qed.
+
+(* a batch write under the emulated internal-server failure applies nothing and reports every request as unprocessed:
+   each request is either applied or returned, never dropped (both SDKs) *)
+Theorem C15_batch_under_failure_all_unprocessed :
+  forall lm s c tn rs,
+    c_failure c = Some FInternal -> v1_name_ok s tn = true -> forallb wreq_ok rs = true -> rs <> [] ->
+    List.length rs <= 25 ->
+    batch_write lm s c [(tn, rs)] = (c, ok_obs (PBatchWrite [(tn, rs)]) []).
+Proof. exact batch_under_failure_all_unprocessed. Qed.
